@@ -169,6 +169,69 @@ example : (demoPipe.run (roundRobin 12)).terminal = true ∧ (demoPipe.run (roun
 example : (demoPipe.run (backwards 12)).terminal = true ∧ (demoPipe.run (backwards 12)).out = [22, 24, 26] := by decide
 example : (demoPipe.run (roundRobin 2)).terminal = false := by decide
 
+/-! ### A for-in loop over a channel takes one item per round (Model/Chan `rangeLoop`, compared with the interpreter by the chan stream) -/
+
+/-- Nothing is lost by a for-in loop, however it ends: the items its body has seen followed by what is still in the channel are exactly the items seen
+before followed by what was in the channel - in order. (A loop that takes items ahead of its body and is then left early breaks this.) -/
+theorem range_hands_over_one_item_per_round (stop : Int → Bool) : ∀ (n : Nat) (c : Ch) (seen : List Int),
+    (rangeLoop stop n c seen).2 ++ (rangeLoop stop n c seen).1.buf = seen ++ c.buf := by
+  intro n
+  induction n with
+  | zero => intro c seen; rfl
+  | succ n ih =>
+    intro c seen
+    unfold rangeLoop
+    cases hb : c.buf with
+    | nil =>
+      by_cases hc : c.closed <;> simp [Ch.step, hb, hc]
+    | cons v rest =>
+      simp only [Ch.step, hb]
+      by_cases hs : stop v
+      · simp [hs]
+      · simp only [hs, Bool.false_eq_true, if_false]
+        rw [ih]
+        simp
+
+/-- the loop only ever removes items: capacity and the closed flag are untouched -/
+theorem range_leaves_flags (stop : Int → Bool) : ∀ (n : Nat) (c : Ch) (seen : List Int),
+    (rangeLoop stop n c seen).1.cap = c.cap ∧ (rangeLoop stop n c seen).1.closed = c.closed := by
+  intro n
+  induction n with
+  | zero => intro c seen; exact ⟨rfl, rfl⟩
+  | succ n ih =>
+    intro c seen
+    unfold rangeLoop
+    cases hb : c.buf with
+    | nil =>
+      by_cases hc : c.closed <;> simp [Ch.step, hb, hc]
+    | cons v rest =>
+      simp only [Ch.step, hb]
+      by_cases hs : stop v
+      · simp [hs]
+      · simp only [hs, Bool.false_eq_true, if_false]
+        have := ih { c with buf := rest } (seen ++ [v])
+        simpa using this
+
+/-- a loop over a closed channel that is never left early sees everything, and drains the channel -/
+theorem range_to_the_end_sees_all (c : Ch) (hc : c.closed = true) : ∀ (n : Nat) (buf : List Int) (seen : List Int), buf.length < n →
+    rangeLoop (fun _ => false) n { c with buf := buf } seen = ({ c with buf := [] }, seen ++ buf) := by
+  intro n
+  induction n with
+  | zero => intro buf seen h; omega
+  | succ n ih =>
+    intro buf seen h
+    unfold rangeLoop
+    cases buf with
+    | nil => simp [Ch.step, hc]
+    | cons v rest =>
+      simp only [Ch.step]
+      have := ih rest (seen ++ [v]) (by simp at h; omega)
+      simpa using this
+
+/-- the channel of the seeded change that motivated this (round 11, C16-21): ten items, the body leaves at item 2 - items 3 ... 9 are still there -/
+example : rangeLoop (fun v => v == 2) 20 ⟨[0, 1, 2, 3, 4, 5, 6, 7, 8, 9], 10, true⟩ [] = (⟨[3, 4, 5, 6, 7, 8, 9], 10, true⟩, [0, 1, 2]) := by decide
+
+
 /-! ### The channel forms in the source (regenerated: Gen/ChanFlow)
 
 Every leaf statement of invokeChanExpr (receive, send, forward), runChanStmt (the receive statements with one and two targets) and runCloseStmt, with the
